@@ -7,8 +7,10 @@ role "kex"  (tested: client verifying the server's signature over H)
     negotiated algorithm X in {ssh-rsa, rsa-sha2-256, rsa-sha2-512} and their -cert-v01 variants
     x algorithm Y the server really signs with / names in the signature blob (same three)
     x the client's enabled set E (every subset of the three RSA names that contains base(X));
-    ECDSA / Ed25519: genuine signature re-labelled with another algorithm name, and a key +
-    signature of a different type (or curve) than negotiated - labelled honestly, or re-labelled
+    RSA signature made with the hash of one algorithm but LABELLED with the negotiated one.
+    ECDSA / Ed25519: genuine signature re-labelled with another algorithm name.
+    Every ordered pair (negotiated key type, foreign key type) of RSA / ECDSA-256/384/521 / Ed25519:
+    key blob + genuine signature of the foreign key, labelled honestly for that key, or re-labelled
     with the negotiated name.
     The lying server is the NON-tested peer: its host key object signs with Y whatever it is
     asked for (its `sign_ssh_data` ignores the requested algorithm).
@@ -22,7 +24,8 @@ role "auth" (tested: server verifying a publickey USERAUTH_REQUEST)
     `pubkeys` set E (all eight subsets); ECDSA / Ed25519 re-labelled. The client is a puppet
     that builds the request by hand: the signature is made over the RFC 4252 7 blob that names D,
     hashed with Y's hash and labelled Y.
-Oracle: accepted  <=>  Y == base(X or D)  and  base(X or D) in E   (cert suffix stripped).
+Oracle: accepted  <=>  Y == base(X or D)  and  base(X or D) in E  (cert suffix stripped)  and the
+  signature really is one of algorithm Y by the key of the negotiated / declared type.
   kex: accepted = start_client returns and initial_kex_done; rejected = it raises and no NEWKEYS
        k >= 2: accepted = the re-exchange completes; rejected = the client never switches its outbound
        keys a k-th time, its byte stream (decoded by `peers.Tap`) holds k-1 NEWKEYS, its transport ends
@@ -40,7 +43,8 @@ LEVEL = "exploration"
 RULE = (
     "complete enumeration of role {kex, auth} x negotiated/declared RSA algorithm (3 + 3 cert variants) x algorithm used "
     "and named in the signature (3) x verifier's enabled subset (kex: 4 subsets containing the negotiated one; auth: all 8), "
-    "plus ECDSA/Ed25519 signatures re-labelled with every other algorithm name and wrong-type key+signature (labelled honestly / as negotiated); role kex "
+    "plus RSA signatures of one hash labelled as the negotiated/declared algorithm, ECDSA/Ed25519 signatures re-labelled with every "
+    "other algorithm name, and foreign key + signature for every ordered pair of the 5 key types (labelled honestly / as negotiated); role kex "
     "additionally x the exchange in which the server starts to lie (1 = initial handshake, 2, 3 = re-exchanges after honest "
     "ones; initiators rotating over client/server in the enumeration, drawn in the repetitions); then hypothesis-drawn "
     "repetitions varying key (rsa1024/rsa2048/rsa2048b), user name and the re-exchange history. non-trivial = signature "
@@ -89,16 +93,28 @@ def _relabel(sigmsg, label):
     return Message(R.string(label) + rd.rest())
 
 
+def _sign(key, data, label, hashalg=None):
+    """Signature message over `data` by `key`, labelled `label`. RSA keys sign with the hash of
+    `hashalg` (default: that of the label, if it is an RSA name); other keys sign the only way they
+    can. The label is whatever the case says - it need not describe how the signature was made."""
+    hashalg = hashalg or label
+    if key.get_name() == "ssh-rsa" and hashalg in RSA:
+        sig = key.sign_ssh_data(data, hashalg)
+        return sig if hashalg == label else _relabel(sig, label)
+    return _relabel(key.sign_ssh_data(data, None), label)
+
+
 class LyingHostKey:
     """Host key object for the non-tested server. From its `k`-th signature on it shows `blob` and
-    signs with `sigalg` (RSA) or signs genuinely and labels the result `sigalg` (ECDSA/Ed25519),
-    whatever it is asked for. Before that (k > 1) it is the honest key `honest`: genuine blob,
+    signs with `hashalg` (RSA; default `sigalg`) or signs genuinely (ECDSA/Ed25519) and labels the
+    result `sigalg`, whatever it is asked for. Before that (k > 1) it is the honest key `honest`: genuine blob,
     signature of the algorithm it was asked for. (Every kex engine calls asbytes() and then
     sign_ssh_data() once per exchange, so the number of signatures made tells the exchange.)"""
 
-    def __init__(self, key, sigalg, blob=None, k=1, honest=None, honest_blob=None):
+    def __init__(self, key, sigalg, blob=None, k=1, honest=None, honest_blob=None, hashalg=None):
         self.key = key
         self.sigalg = sigalg
+        self.hashalg = hashalg or sigalg  # RSA: the algorithm the signature is really made with
         self.blob = blob if blob is not None else key.asbytes()
         self.k = k
         self.honest = honest if honest is not None else key
@@ -121,9 +137,7 @@ class LyingHostKey:
         if not lying_now:
             return self.honest.sign_ssh_data(data, algorithm)
         self.lied.append(len(self.asked))
-        if self.sigalg in RSA and self.key.get_name() == "ssh-rsa":
-            return self.key.sign_ssh_data(data, self.sigalg)
-        return _relabel(self.key.sign_ssh_data(data, None), self.sigalg)
+        return _sign(self.key, data, self.sigalg, self.hashalg)
 
 
 def _key(case):
@@ -138,6 +152,8 @@ def _why(fam, case, alg, y, enabled):
         return "other-curve-accepted" if base(alg) in EC and case["wrongtype"].startswith("ecdsa") else "wrong-key-type-accepted"
     if base(alg) not in enabled:
         return "declared-algorithm-disabled-accepted"
+    if case.get("hashalg") and case["hashalg"] != y:
+        return "signature-of-another-hash-accepted"
     if fam == "ec":
         return "relabelled-signature-accepted"
     if y not in RSA:
@@ -157,11 +173,12 @@ def run_kex(ctx, case):
     if case.get("wrongtype"):
         # key and signature of another type than negotiated
         other = peers.keypool()[case["wrongtype"]]
-        lying_key = LyingHostKey(other, y, k=k, honest=key)
+        lying_key = LyingHostKey(other, y, k=k, honest=key, hashalg=case.get("hashalg"))
     else:
-        lying_key = LyingHostKey(key, y, blob, k=k)
-    expect = y == base(x) and base(x) in enabled and not case.get("wrongtype")
-    nontriv = y != base(x) or bool(case.get("wrongtype"))
+        lying_key = LyingHostKey(key, y, blob, k=k, hashalg=case.get("hashalg"))
+    madewith = case.get("hashalg") or y
+    expect = y == base(x) and madewith == y and base(x) in enabled and not case.get("wrongtype")
+    nontriv = y != base(x) or madewith != y or bool(case.get("wrongtype"))
     cls = ["kex", "kex:expect-accept" if expect else "kex:expect-reject", "kex:cert" if case.get("cert") else "kex:plain", "kex:lie-from-exchange:%d" % k]
     if k >= 2:
         cls.append("kex:lying-exchange-started-by:" + ("client" if rekeys[-1] == "c" else "server"))
@@ -224,7 +241,7 @@ def run_kex(ctx, case):
             "kex-signature-algorithm",
             "%s:%s" % (fam, why),
             case,
-            "negotiated %s, client enables %r, server signed with / labelled %s: %s" % (x, enabled, y, outcome),
+            "negotiated %s, client enables %r, server labelled its signature %s (made with %s%s): %s" % (x, enabled, y, madewith, ", key " + case["wrongtype"] if case.get("wrongtype") else "", outcome),
         )
         return False
     return True
@@ -240,8 +257,9 @@ def run_auth(ctx, case):
     if case.get("wrongtype"):  # key blob and (genuine) signature of another type than declared
         key = peers.keypool()[case["wrongtype"]]
     blob = key.public_blob.key_blob if case.get("cert") else key.asbytes()
-    expect = y == base(d) and base(d) in enabled and not case.get("wrongtype")
-    nontriv = y != base(d) or base(d) not in enabled or bool(case.get("wrongtype"))
+    madewith = case.get("hashalg") or y
+    expect = y == base(d) and madewith == y and base(d) in enabled and not case.get("wrongtype")
+    nontriv = y != base(d) or madewith != y or base(d) not in enabled or bool(case.get("wrongtype"))
     ctx.case(case, nontriv, ["auth", "auth:expect-accept" if expect else "auth:expect-reject", "auth:cert" if case.get("cert") else "auth:plain"])
     srv = peers.RecordingServer({"check_auth_publickey": peers.AUTH_SUCCESSFUL}, allowed="publickey")
     skw = {"disabled_algorithms": {"pubkeys": [a for a in ALLKEYALGS if a not in enabled]}}
@@ -256,10 +274,7 @@ def run_auth(ctx, case):
         if not tc.wait_log(lambda lg: any(e[1] == 6 for e in lg) or not ts.is_active(), 15.0) or not ts.is_active():
             raise core.HarnessError("no SERVICE_ACCEPT")
         signed = R.string(tc.session_id) + bytes([50]) + R.string(user) + R.string("ssh-connection") + R.string("publickey") + R.boolean(True) + R.string(d) + R.string(blob)
-        if y in RSA and key.get_name() == "ssh-rsa":
-            sig = key.sign_ssh_data(signed, y).asbytes()
-        else:
-            sig = _relabel(key.sign_ssh_data(signed, None), y).asbytes()
+        sig = _sign(key, signed, y, case.get("hashalg")).asbytes()
         req = peers.m_userauth_request(user, "ssh-connection", "publickey", R.boolean(True) + R.string(d) + R.string(blob) + R.string(sig))
         tc.send_raw(req)
         got = tc.wait_log(lambda lg: [e[1] for e in lg if e[1] in (51, 52, 1)] or (not ts.is_active() and ["dead"]), 15.0)
@@ -282,7 +297,8 @@ def run_auth(ctx, case):
             "auth-signature-algorithm",
             "%s:%s" % (fam, why),
             case,
-            "request declares %s, server enables pubkeys %r, signature made with / labelled %s: reply %r, is_authenticated()=%s, check_auth_publickey called %d time(s)" % (d, enabled, y, got, authed, len(checked)),
+            "request declares %s, server enables pubkeys %r, signature labelled %s (made with %s%s): reply %r, is_authenticated()=%s, check_auth_publickey called %d time(s)"
+            % (d, enabled, y, madewith, ", key " + case["wrongtype"] if case.get("wrongtype") else "", got, authed, len(checked)),
         )
         return False
     return True
@@ -311,13 +327,24 @@ def domain():
             cases.append({"role": "kex", "alg": x, "sigalg": y, "enabled": [x], "key": kname, "cert": False})
             cases.append({"role": "auth", "alg": x, "sigalg": y, "enabled": list(ALLKEYALGS), "key": kname, "cert": False})
         cases.append({"role": "auth", "alg": x, "sigalg": x, "enabled": [a for a in ALLKEYALGS if a != x], "key": kname, "cert": False})
-    # key + signature of another type than negotiated (honest for that other type)
-    for x, wrong, y in (("ssh-ed25519", "rsa2048", "rsa-sha2-256"), ("ecdsa-sha2-nistp256", "ed25519", "ssh-ed25519"), ("rsa-sha2-512", "ecdsa256", "ecdsa-sha2-nistp256"), ("ecdsa-sha2-nistp256", "ecdsa384", "ecdsa-sha2-nistp384")):
-        cases.append({"role": "kex", "alg": x, "sigalg": y, "enabled": [x], "key": "rsa2048" if x in RSA else EC[x], "cert": False, "wrongtype": wrong})
-        cases.append({"role": "auth", "alg": x, "sigalg": y, "enabled": [a for a in ALLKEYALGS if a != y], "key": "rsa2048" if x in RSA else EC[x], "cert": False, "wrongtype": wrong})
-        # ... and the same foreign key whose genuine signature is re-labelled with the negotiated / declared name
-        cases.append({"role": "kex", "alg": x, "sigalg": x, "enabled": [x], "key": "rsa2048" if x in RSA else EC[x], "cert": False, "wrongtype": wrong})
-        cases.append({"role": "auth", "alg": x, "sigalg": x, "enabled": list(ALLKEYALGS), "key": "rsa2048" if x in RSA else EC[x], "cert": False, "wrongtype": wrong})
+    # RSA signature made with the hash of algorithm h but labelled with the negotiated / declared name
+    for cert in (False, True):
+        for x in RSA:
+            for h in RSA:
+                if h != x:
+                    alg = x + CERT if cert else x
+                    cases.append({"role": "kex", "alg": alg, "sigalg": x, "hashalg": h, "enabled": list(RSA), "key": "rsa2048", "cert": cert})
+                    cases.append({"role": "auth", "alg": alg, "sigalg": x, "hashalg": h, "enabled": list(RSA), "key": "rsa2048", "cert": cert})
+    # key + signature of another type / curve than negotiated or declared (every ordered pair of the
+    # five key types): labelled honestly for that foreign key, or re-labelled with the negotiated name
+    types = dict({"rsa-sha2-512": "rsa2048"}, **EC)  # negotiated / declared algorithm -> the peer's own key
+    for x, own in types.items():
+        for wx, wrong in types.items():
+            if wrong == own:
+                continue
+            for y in (("rsa-sha2-256" if wx in RSA else wx), x):
+                cases.append({"role": "kex", "alg": x, "sigalg": y, "enabled": [x], "key": own, "cert": False, "wrongtype": wrong})
+                cases.append({"role": "auth", "alg": x, "sigalg": y, "enabled": list(ALLKEYALGS) if y == x else [a for a in ALLKEYALGS if a != y], "key": own, "cert": False, "wrongtype": wrong})
     # role kex: the same lies, but starting in the 2nd / 3rd exchange of the session (after honest ones)
     pats = {2: [["c"], ["s"]], 3: [["c", "s"], ["s", "c"], ["s", "s"], ["c", "c"]]}
     for j, c in enumerate([c for c in cases if c["role"] == "kex"]):
